@@ -10,7 +10,36 @@ import time
 
 from common import CoqEvalError, c_bool, c_list, c_nat, c_str
 
+from golem.core.dag.linked_graph import LinkedGraph
 from golem.core.optimisers.graph import OptGraph, OptNode
+
+
+# the graph classes a presentation may be held by: the two public Graph implementations (plain LinkedGraph;
+# OptGraph = GraphDelegate over a LinkedGraph) and a subclass of each.  == must not depend on them.
+class SubOptGraph(OptGraph):
+    pass
+
+
+class SubLinkedGraph(LinkedGraph):
+    pass
+
+
+CLASSES = {'OptGraph': OptGraph, 'LinkedGraph': LinkedGraph, 'SubOptGraph': SubOptGraph,
+           'SubLinkedGraph': SubLinkedGraph}
+CLASS_NAMES = list(CLASSES)
+
+
+def cls_name(g):
+    return type(g).__name__ if type(g).__name__ in CLASSES else 'OptGraph'
+
+
+def rehouse(g, cname):
+    """the same node objects in the same listing order, held by a graph of class cname"""
+    if cls_name(g) == cname:
+        return g
+    h = CLASSES[cname]()
+    h.nodes = list(g.nodes)
+    return h
 
 REQ = ['Graph.DescId']
 
@@ -75,8 +104,8 @@ def build_tree_node(t, protos=None):
     return nd
 
 
-def build_tree(t, shared=False):
-    return OptGraph(build_tree_node(t, {} if shared else None))
+def build_tree(t, shared=False, cname='OptGraph'):
+    return CLASSES[cname](build_tree_node(t, {} if shared else None))
 
 
 def tree_coq(t):
@@ -103,10 +132,10 @@ def py_canon(t):
 _W = {}
 
 
-def _w_init(trees, shared):
+def _w_init(trees, shared, classes):
     import logging
     logging.disable(logging.CRITICAL)
-    _W['graphs'] = [build_tree(t, sh) for t, sh in zip(trees, shared)]
+    _W['graphs'] = [build_tree(t, sh, c) for t, sh, c in zip(trees, shared, classes)]
 
 
 def _w_rows(rng_):
@@ -115,7 +144,7 @@ def _w_rows(rng_):
     return [[j for j, h in enumerate(gs) if gs[i] == h] for i in range(lo, hi)]
 
 
-def eq_rows(trees, graphs, workers, shared):
+def eq_rows(trees, graphs, workers, shared, classes):
     """row i = positions j with graphs[i] == graphs[j] (the real __eq__ on every ordered pair)"""
     n = len(trees)
     if workers <= 1 or n < 800:
@@ -124,7 +153,7 @@ def eq_rows(trees, graphs, workers, shared):
     chunks = [(lo, min(n, lo + step)) for lo in range(0, n, step)]
     rows = []
     with concurrent.futures.ProcessPoolExecutor(max_workers=workers, initializer=_w_init,
-                                                initargs=(trees, shared)) as ex:
+                                                initargs=(trees, shared, classes)) as ex:
         for part in ex.map(_w_rows, chunks):
             rows.extend(part)
     return rows
@@ -141,11 +170,13 @@ def tree_preamble(trees):
             % c_list([tree_coq(t) for t in trees], 'tree'))
 
 
-def run_tree_pool(ctx, group, trees, workers=1, canary=True, shared=None):
-    """shared: per pool entry, build the tree from deepcopies sharing uids (the Coq side sees the tree only)"""
+def run_tree_pool(ctx, group, trees, workers=1, canary=True, shared=None, classes=None):
+    """shared: per pool entry, build the tree from deepcopies sharing uids; classes: per pool entry, the graph
+    class holding it (the Coq side sees the tree only)"""
     shared = shared or [False] * len(trees)
+    classes = classes or ['OptGraph'] * len(trees)
     roots = [build_tree_node(t, {} if sh else None) for t, sh in zip(trees, shared)]
-    graphs = [OptGraph(r) for r in roots]
+    graphs = [CLASSES[c](r) for r, c in zip(roots, classes)]
     for t, g in zip(trees, graphs):      # == and descriptive_id are total on trees
         try:
             g.descriptive_id, g == g, g == graphs[0]
@@ -160,7 +191,7 @@ def run_tree_pool(ctx, group, trees, workers=1, canary=True, shared=None):
         if r.descriptive_id != s:
             ctx.disagree(group, {'kind': 'tree-pair', 't1': tree_json(t), 't2': tree_json(t)},
                          'the identifier of the root node differs from the identifier of the tree graph')
-    rows = eq_rows(trees, graphs, workers, shared)
+    rows = eq_rows(trees, graphs, workers, shared, classes)
     by_id = {}
     for j, s in enumerate(ids):
         by_id.setdefault(s, []).append(j)
@@ -186,8 +217,8 @@ def run_tree_pool(ctx, group, trees, workers=1, canary=True, shared=None):
     g = ctx.group(group)
     canon_ids = [py_canon(t) for t in trees]
     for i, (t, (ag, ho)) in enumerate(zip(trees, res)):
-        ctx.count(group, key=('tree', t, shared[i]), nontrivial=tree_size(t) >= 2, size=tree_size(t),
-                  shared_uids=shared[i])
+        ctx.count(group, key=('tree', t, shared[i], classes[i]), nontrivial=tree_size(t) >= 2, size=tree_size(t),
+                  shared_uids=shared[i], graph_class=classes[i])
         g['evaluations'] += n - 1          # the row holds n ordered pairs
         d = g['distribution'].setdefault('pairs', {})
         d['equal'] = d.get('equal', 0) + len(rows[i])
@@ -198,7 +229,7 @@ def run_tree_pool(ctx, group, trees, workers=1, canary=True, shared=None):
             bad = sorted(set(expect) ^ set(rows[i])) or sorted(set(expect) ^ set(id_rows[i]))
             j = bad[0] if bad else i
             case = {'kind': 'tree-pair', 't1': tree_json(t), 't2': tree_json(trees[j]),
-                    'shared_uids1': shared[i], 'shared_uids2': shared[j],
+                    'shared_uids1': shared[i], 'shared_uids2': shared[j], 'class1': classes[i], 'class2': classes[j],
                     'observed_eq': j in rows[i], 'observed_id1': ids[i], 'observed_id2': ids[j]}
             if not ho:
                 ctx.violate(group, case, 'tree equality / identifier equality differs from label-preserving '
@@ -242,7 +273,7 @@ def content_of(name, params):
     return c
 
 
-def build(spec, order, how, dups=None):
+def build(spec, order, how, dups=None, cname='OptGraph'):
     """builds a fresh graph from spec; order = listing order requested (permutation of the spec
     positions); how: 'nodes' (assign the nodes list), 'ctor' (OptGraph(list): add_node order),
     'roots' (OptGraph(list of root nodes)); dups = {j: i}: node j is made as deepcopy(node i), i.e. a distinct
@@ -255,17 +286,18 @@ def build(spec, order, how, dups=None):
     for nd, s in zip(nodes, spec):
         nd.nodes_from = [nodes[p] for p in s[2]]
     listing = [nodes[i] for i in order]
+    cls = CLASSES[cname]
     if how == 'nodes':
-        g = OptGraph()
+        g = cls()
         g.nodes = listing
     elif how == 'ctor':
-        g = OptGraph(listing)
+        g = cls(listing)
     else:
         has_child = {p for s in spec for p in s[2]}
         roots = [nodes[i] for i in order if i not in has_child]
-        g = OptGraph(roots) if roots else OptGraph(listing)
+        g = cls(roots) if roots else cls(listing)
     if len(g.nodes) != len(nodes):     # a part without root nodes (cyclic) is not reachable from the roots
-        g = OptGraph()
+        g = cls()
         g.nodes = listing
     return g, nodes
 
@@ -345,10 +377,13 @@ def variant(rng, spec, base_graph, base_nodes, hows=HOWS):
                 ps = list(nd.nodes_from)
                 rng.shuffle(ps)
                 nd.nodes_from = ps
+        if rng.random() < 0.5:        # the copy handed over to a graph of another class
+            g = rehouse(g, rng.choice(CLASS_NAMES))
         return g, nodes, how
     spec2 = [[s[0], s[1], rng.sample(s[2], len(s[2]))] for s in spec]
     order = rng.sample(range(n), n)
-    g, nodes = build(spec2, order, {'rebuild-nodes': 'nodes', 'rebuild-ctor': 'ctor'}.get(how, 'roots'))
+    g, nodes = build(spec2, order, {'rebuild-nodes': 'nodes', 'rebuild-ctor': 'ctor'}.get(how, 'roots'),
+                     cname=rng.choice(CLASS_NAMES))
     return g, nodes, how
 
 
@@ -414,16 +449,17 @@ def triple_case(g1, g2, g3, f12, f23):
         e = observe_triple(g1, g2, g3)
     except Exception as ex:
         return None, {'kind': 'dag-triple', 'g1': s1, 'g2': s2, 'g3': s3, 'f12': f12, 'f23': f23,
+                      'classes': [cls_name(g1), cls_name(g2), cls_name(g3)],
                       'raised': '%s: %s' % (type(ex).__name__, ex)}
     term = '(%s, %s, %s, %s, %s, %s, %s, %s, %s)' % (
         dg_coq(s1), dg_coq(s2), dg_coq(s3), c_list(map(c_nat, f12), 'nat'), c_list(map(c_nat, f23), 'nat'),
         gobs_coq(o1), gobs_coq(o2), gobs_coq(o3), eqs_coq(e))
     case = {'kind': 'dag-triple', 'g1': s1, 'g2': s2, 'g3': s3, 'f12': f12, 'f23': f23,
-            'obs': [o1, o2, o3], 'eq': e}
+            'classes': [cls_name(g1), cls_name(g2), cls_name(g3)], 'obs': [o1, o2, o3], 'eq': e}
     return term, case
 
 
-def graph_from_snapshot(snap):
+def graph_from_snapshot(snap, cname='OptGraph'):
     """rebuild a real graph from a replay snapshot (uids restored)"""
     nodes = []
     for e in snap:
@@ -438,7 +474,7 @@ def graph_from_snapshot(snap):
         nodes.append(nd)
     for nd, e in zip(nodes, snap):
         nd.nodes_from = [nodes[p] for p in e[3]]
-    g = OptGraph()
+    g = CLASSES.get(cname, OptGraph)()
     g.nodes = nodes
     return g
 
@@ -494,7 +530,8 @@ def run_dags(ctx, n_triples):
                     dups[j] = i
                     spec[j][0], spec[j][1] = spec[i][0], deepcopy(spec[i][1])
             flavour = 'shared-uid'
-        g1, nodes1 = build(spec, list(range(len(spec))), rng.choice(['nodes', 'ctor', 'roots']), dups)
+        g1, nodes1 = build(spec, list(range(len(spec))), rng.choice(['nodes', 'ctor', 'roots']), dups,
+                           cname=rng.choice(CLASS_NAMES))
         g2, nodes2, how2 = variant(rng, spec, g1, nodes1, HOWS[1:4] if dups and rng.random() < 0.7 else HOWS)
         f12 = index_map(g1, nodes1, g2, nodes2)
         if rng.random() < 0.4:
@@ -505,7 +542,7 @@ def run_dags(ctx, n_triples):
             spec3, how3 = mutate_spec(rng, spec, names) if spec else ([['a', None, []]], 'add-node')
             # the near-miss keeps the shared uids half of the time
             g3, nodes3 = build(spec3, rng.sample(range(len(spec3)), len(spec3)), 'nodes',
-                               dups if rng.random() < 0.5 else None)
+                               dups if rng.random() < 0.5 else None, cname=rng.choice(CLASS_NAMES))
             f23 = []
             claim23 = False
         # fresh identities change a uid-derived label: then only deep copies are isomorphic presentations
@@ -543,7 +580,8 @@ def run_dags(ctx, n_triples):
             ctx.count('dags', key=(repr(case['g' + a]), repr(case['g' + b])),
                       nontrivial=(n >= 2 and case['g' + a] != case['g' + b]),
                       flavour=flavour, transformation=how, nodes=n, isomorphic_presentation=bool(isob),
-                      observed_equal=e[a + b], sinks=('single' if single else 'any'), params=params_on)
+                      observed_equal=e[a + b], sinks=('single' if single else 'any'), params=params_on,
+                      graph_classes='%s/%s' % (case['classes'][int(a) - 1], case['classes'][int(b) - 1]))
             if iso_claim and not isob:
                 ctx.error('dags', 'harness bug: claimed isomorphism rejected by iso_b: %r' % (case,))
         ctx.count('dags', key=(repr(case['g1']), repr(case['g3'])), nontrivial=n >= 2, flavour=flavour,
@@ -564,10 +602,11 @@ def run(ctx):
                 'labels two of which differ in params only; thorough: <=6 nodes over {a,b}, <=4 nodes over {a,b,c} '
                 'and <=4 nodes over the 4 labels; plus a pool holding every tree <=4 (thorough <=5) nodes over {a,b} twice: '
                 'from fresh nodes and from deepcopies sharing one uid per label; plus <=3 (thorough <=4) nodes over the '
-                'names a, 0, False, 0.0 [non-string, falsy]); one evaluation = one ordered pair '
+                'names a, 0, False, 0.0 [non-string, falsy]; plus every tree <=4 nodes over {a,b} held by each of LinkedGraph, '
+                'OptGraph and a subclass of each [thorough also <=5 nodes x LinkedGraph/OptGraph]); one evaluation = one ordered pair '
                 '(real == called); '
                 'distinct non-trivial = distinct tree with >=2 nodes (row of the pair matrix).  (b) dags: triples '
-                '(g1 [18%: some nodes are deepcopies of other nodes of the same graph = distinct objects with one uid], '
+                '(every graph held by a random one of the 4 graph classes; g1 [18%: some nodes are deepcopies of other nodes of the same graph = distinct objects with one uid], '
                 'presentation g2 of g1 [deepcopy / relisted / parents reordered / rebuilt with fresh uids], '
                 'g3 = another presentation or a near-miss mutation); one evaluation = one unordered pair of the '
                 'triple (== observed both ways, ids of graph and of every node); non-trivial = >=2 nodes and the '
@@ -592,6 +631,16 @@ def run(ctx):
     run_tree_pool(ctx, 'trees-nonstring-names', all_trees(ctx.pick(3, 4), ['a', '0', 'False', '0.0']),
                   workers=ctx.pick(1, 6))
     ctx.set_exhaustive('trees-nonstring-names', True)
+    # every small tree held by each of the graph classes (all ordered pairs: == in both directions across classes)
+    base = all_trees(4, 'ab')
+    run_tree_pool(ctx, 'trees-graph-classes', base * len(CLASS_NAMES), workers=ctx.pick(1, 6),
+                  classes=[c for c in CLASS_NAMES for _ in base])
+    ctx.set_exhaustive('trees-graph-classes', True)
+    if ctx.tier == 'thorough':
+        base = all_trees(5, 'ab')
+        run_tree_pool(ctx, 'trees-graph-classes-5', base + base, workers=6,
+                      classes=['LinkedGraph'] * len(base) + ['OptGraph'] * len(base))
+        ctx.set_exhaustive('trees-graph-classes-5', True)
     # every tree once from fresh nodes and once from deepcopies that share one uid per label
     base = all_trees(ctx.pick(4, 5), 'ab')
     run_tree_pool(ctx, 'trees-shared-uid', base + base, workers=ctx.pick(1, 6),
@@ -623,9 +672,11 @@ def replay(ctx, payload):
     if case.get('kind') == 'tree-pair':
         trees = [tree_from_json(case['t1']), tree_from_json(case['t2'])]
         run_tree_pool(ctx, 'replay', trees, canary=False,
-                      shared=[bool(case.get('shared_uids1')), bool(case.get('shared_uids2'))])
+                      shared=[bool(case.get('shared_uids1')), bool(case.get('shared_uids2'))],
+                      classes=[case.get('class1', 'OptGraph'), case.get('class2', 'OptGraph')])
     elif case.get('kind') == 'dag-triple':
-        g1, g2, g3 = (graph_from_snapshot(case[k]) for k in ('g1', 'g2', 'g3'))
+        cl = case.get('classes') or ['OptGraph'] * 3
+        g1, g2, g3 = (graph_from_snapshot(case[k], c) for k, c in zip(('g1', 'g2', 'g3'), cl))
         term, c = triple_case(g1, g2, g3, case['f12'], case['f23'])
         ctx.count('replay', key=repr(c['g1']), nontrivial=True)
         if term is None:
